@@ -10,14 +10,14 @@ import warnings
 
 from ..core import hx
 from ..ref import wire, keys as RK, grammar, armor
-from .. import pool, sigwork
+from .. import pool, sigwork, foreignkey
 
 LEVEL = 'exploration'
 RULE = ('case = (key shape: primary algorithm, subkey, protection state) x history of key-management operations; one evaluation per state at which a twin '
         '(fresh and held-from-earlier) is compared with the public projection; non-trivial = the history contains at least one operation after the held '
         'twin was derived; distinct = distinct (shape, history) descriptors')
 ASSUMPTIONS = ['vf.ref packet splitter and key-grammar parser', 'secret integers shorter than 8 octets are not scanned for']
-MIN_COUNTERS = {'quick': {'states_checked': 150, 'fresh_twin_matches': 150, 'private_ops_refused': 300, 'secret_scans': 300},
+MIN_COUNTERS = {'quick': {'states_checked': 150, 'fresh_twin_matches': 150, 'private_ops_refused': 300, 'secret_scans': 300, 'foreign_keys_loaded': 15},
                 'thorough': {'states_checked': 3000}}
 BUDGET = {'quick': (600, 1500), 'thorough': (1800, 3600)}
 TECHNIQUE = 'runtime monitoring: history monitor; exports compared with the public projection computed by an independent parser; secret-octet scan; refusal matrix'
@@ -35,6 +35,13 @@ def cases(tier, seed):
         for h in range(n):
             ops = [r.choice(OPS) for _ in range(r.randint(2, 7))]
             cs.append({'primary': p, 'sub': s, 'ops': ops, 'derive_at': r.randint(0, max(0, len(ops) - 2)), 'h': h, 'mode': 'held' if h % 3 else 'accessor'})
+    # private keys that arrive from another implementation (legal encodings that are not PGPy's own) and then go through a history
+    for si, (p, s) in enumerate(SHAPES):
+        for j, style in enumerate(foreignkey.STYLES):
+            if tier == 'quick' and (si + j) % 2:
+                continue
+            ops = [r.choice(OPS) for _ in range(r.randint(0, 4))]
+            cs.append({'primary': p, 'sub': s, 'ops': ops, 'derive_at': 0, 'h': 1000 + j, 'mode': ['held', 'accessor'][(si + j) % 2], 'foreign': style})
     return cs
 
 
@@ -124,7 +131,15 @@ def run_case(ctx, d):
     with warnings.catch_warnings():
         warnings.simplefilter('ignore')
         names = [d['primary']] + ([d['sub']] if d['sub'] else [])
-        k = pool.pgpy_key(d['primary'], sub=d['sub'], fresh=True, uid='C07 user %d' % d['h'])
+        must_keep = []
+        if d.get('foreign'):
+            fblob, finfo = foreignkey.build(d['primary'], d['sub'], d['foreign'], extra_uid=b'Second Identity <second@example.org>')
+            k, _ = pgpy.PGPKey.from_blob(fblob)
+            # the first identity's self-certification and the subkey binding are never removed by the operations below
+            must_keep = [finfo['sig_bodies'][0]] + ([finfo['sig_bodies'][-1]] if d['sub'] else [])
+            ctx.count('foreign_keys_loaded')
+        else:
+            k = pool.pgpy_key(d['primary'], sub=d['sub'], fresh=True, uid='C07 user %d' % d['h'])
         other = sigwork.target_key()
         held = None
         alive = []
@@ -209,6 +224,11 @@ def run_case(ctx, d):
                             ctx.fail('fresh-public-twin-differs-from-projection', dict(where, state=sname, differs=dd))
                         else:
                             ctx.count('fresh_twin_matches')
+                        if must_keep:
+                            have = {p_.body for p_ in wire.split(bytes(fresh)) if p_.tag == 2}
+                            ctx.count('received_signatures_looked_for', len(must_keep))
+                            if not all(b in have for b in must_keep):
+                                ctx.fail('public-twin-does-not-carry-the-signatures-as-received', dict(where, state=sname, missing=sum(1 for b in must_keep if b not in have)))
                     if str(fresh.fingerprint) != RK.fingerprint(proj['primary']).hex().upper():
                         ctx.fail('twin-fingerprint', where)
                 finally:
